@@ -37,6 +37,25 @@ def unwrap(e):
     return e
 
 
+def self_obj(n):
+    """the This node if n denotes the object itself: this, *this, (*this), std::as_const(*this), a const_cast of it; else None"""
+    for _ in range(6):
+        n = strip_casts(n)
+        if n is None:
+            return None
+        if n["k"] == "This":
+            return n
+        if n["k"] in ("ParenExpr", "MaterializeTemporaryExpr", "ExprWithCleanups") and kids(n):
+            n = kids(n)[0]
+        elif n["k"] == "UnaryOperator" and n.get("op") == "*" and kids(n):
+            n = kids(n)[0]
+        elif n["k"] == "CallExpr" and n["callee"]["name"] in TRANSPARENT and len(kids(n)) == 1:
+            n = kids(n)[0]
+        else:
+            return None
+    return None
+
+
 def is_null(e):
     e = unwrap(e)
     return e is not None and (e["k"] in ("NullPtr", "CXXNullPtrLiteralExpr", "GNUNullExpr") or const_int(e) == 0)
@@ -194,21 +213,21 @@ def _return_ids(fn):
     return out
 
 
-def ring_run(fn, b_, e_, m_, i_=None):
-    """evaluates the body of a RingBuffer member for one cursor position (begin_, end_) of a buffer with capacity m_+1:
-    -> (returned value, key of the returned lvalue, final environment, constructed slots, destroyed slots).
-    Closed world: a call that is neither an element construction/destruction, a value wrapper nor a member of *this whose
-    body is entered is Undecidable."""
-    made, gone, rk = [], [], [None]
+def ring_event(on_make, on_gone, rk=None):
+    """the event handler of an evaluation of ring-buffer code: element constructions (allocator construct / construct_at /
+    placement new) and destructions are reported to on_make(address, value expressions, sk, node) / on_gone(address, sk, node);
+    updates through the result of another update and unsigned division / comparison are evaluated exactly.  Closed world: a
+    call that is neither of these, a value wrapper, nor a function whose body the skeleton enters is Undecidable."""
     rets = {}
 
     def event(e, sk):
-        if sk.fn.did not in rets:
-            rets[sk.fn.did] = _return_ids(sk.fn)
-        if e["id"] in rets[sk.fn.did]:
-            k_ = sk.lvalue(e)                  # the element a return names; a forwarding `return front();` takes it from the callee
-            if k_ is not None:
-                rk[0] = k_
+        if rk is not None:
+            if sk.fn.did not in rets:
+                rets[sk.fn.did] = _return_ids(sk.fn)
+            if e["id"] in rets[sk.fn.did]:
+                k_ = sk.lvalue(e)                  # the element a return names; a forwarding `return front();` takes it from the callee
+                if k_ is not None:
+                    rk[0] = k_
         if is_assert_stmt(e):
             return None
         r = _assign_through(e, sk)
@@ -221,7 +240,7 @@ def ring_run(fn, b_, e_, m_, i_=None):
             a = _address(sk.ev(kids(e)[0]))               # ::new (address) T(...)
             if a is None:
                 raise dtable.Undecidable("%s: address of the placement new cannot be evaluated: %s" % (sk.fn.nloc(e), dtable.describe(kids(e)[0])))
-            made.append(a - BASE)
+            on_make(a, kids(e)[1:], sk, e)
             return ("ptr", ("mem", a))
         if e["k"] in ("CXXNewExpr", "CXXDeleteExpr", "LambdaExpr"):
             raise dtable.Undecidable("%s: %s is not evaluated in a ring-buffer member" % (sk.fn.nloc(e), e["k"]))
@@ -239,17 +258,18 @@ def ring_run(fn, b_, e_, m_, i_=None):
                 if a is None:
                     raise dtable.Undecidable("%s: address of the %sed element cannot be evaluated: %s"
                                              % (sk.fn.nloc(e), nm.split("_")[0], dtable.describe(args[1] if with_alloc else args[0])))
-                (made if nm.startswith("construct") else gone).append(a - BASE)
+                if nm.startswith("construct"):
+                    on_make(a, args[2:] if with_alloc else args[1:], sk, e)
+                else:
+                    on_gone(a, sk, e)
                 return None
             if e["k"] == "CXXOperatorCallExpr" and args:
-                a0 = strip_casts(args[0])
-                while a0 is not None and a0["k"] == "ParenExpr":
-                    a0 = strip_casts(kids(a0)[0])
+                th = self_obj(args[0])
                 cal = sk.tu.by_did.get(e["callee"].get("did")) if sk.tu is not None else None
-                if a0 is not None and a0["k"] == "UnaryOperator" and a0.get("op") == "*" and strip_casts(kids(a0)[0])["k"] == "This" and cal is not None:
+                if th is not None and cal is not None and cal.record == sk.fn.record:
                     # (*this)[i], (*this)(...): the member operator is entered like a named member call
-                    r = sk.inline({"k": "CXXMemberCallExpr", "member_call": True, "callee": e["callee"], "id": e["id"], "ch": [kids(a0)[0]] + args[1:]},
-                                  [kids(a0)[0]] + args[1:])
+                    r = sk.inline({"k": "CXXMemberCallExpr", "member_call": True, "callee": e["callee"], "id": e["id"], "ch": [th] + args[1:]},
+                                  [th] + args[1:])
                     if r is NotImplemented:
                         raise dtable.Undecidable("%s: call of %s on *this is not understood" % (sk.fn.nloc(e), nm))
                     return r
@@ -259,12 +279,30 @@ def ring_run(fn, b_, e_, m_, i_=None):
             if e["k"] in ("CXXConstructExpr", "CXXTemporaryObjectExpr"):
                 return None                               # an element value
             cal = sk.tu.by_did.get(e["callee"].get("did")) if sk.tu is not None else None
-            on_this = bool(e.get("member_call") and args and strip_casts(args[0])["k"] == "This")
+            th = self_obj(args[0]) if e.get("member_call") and args else None
+            on_this = th is not None
             if cal is not None and cal.body is not None and cal.did != sk.fn.did and cal.kind not in ("ctor", "dtor", "lambda") and sk.depth < 5 \
                     and (on_this or not e.get("member_call")) and len(args) - (1 if on_this else 0) == len(cal.params):
+                if on_this and strip_casts(args[0])["k"] != "This":
+                    # (*this).f(...), std::as_const(*this).f(...): entered like this->f(...)
+                    e2 = dict(e)
+                    e2["ch"] = [th] + args[1:]
+                    r = sk.inline(e2, [a_ for a_ in e2["ch"] if a_ is not None and a_["k"] != "DefaultArg"])
+                    if r is NotImplemented:
+                        raise dtable.Undecidable("%s: call of %s on *this is not understood" % (sk.fn.nloc(e), nm))
+                    return r
                 return NotImplemented                     # the skeleton enters the body
             raise dtable.Undecidable("%s: call of %s is not understood in a ring-buffer member" % (sk.fn.nloc(e), nm))
         return NotImplemented
+    return event
+
+
+def ring_run(fn, b_, e_, m_, i_=None):
+    """evaluates the body of a RingBuffer member for one cursor position (begin_, end_) of a buffer with capacity m_+1:
+    -> (returned value, key of the returned lvalue, final environment, constructed slots, destroyed slots).
+    Closed world: see ring_event."""
+    made, gone, rk = [], [], [None]
+    event = ring_event(lambda a, vals, sk, e: made.append(a - BASE), lambda a, sk, e: gone.append(a - BASE), rk)
     env = {("field", "begin_"): b_, ("field", "end_"): e_, ("field", "mask_"): m_, ("field", "capacity_"): m_ + 1,
            ("field", "data_"): BASE, ("field", "max_size_"): m_}
     if fn.params and i_ is not None:
@@ -590,8 +628,7 @@ def this_calls(fn, names):
     out = []
     for x in ir.walk(fn.body):
         if "callee" in x and (names is None or x["callee"]["name"] in names) and x.get("member_call") and kids(x):
-            obj = strip_casts(kids(x)[0])
-            if obj["k"] == "This":
+            if self_obj(kids(x)[0]) is not None:
                 out.append(x)
     return out
 
@@ -609,7 +646,7 @@ def dealloc_calls(fn):
         a = kids(x)
         if len(a) == 3 and match.this_field(a[0]) == "alloc_":
             out.append((x, a[1], a[2]))
-        elif x.get("member_call") and a and strip_casts(a[0])["k"] == "This":
+        elif x.get("member_call") and a and self_obj(a[0]) is not None:
             continue                                     # RingBuffer::deallocate() itself: judged in its own body
         else:
             raise dtable.Undecidable("%s: deallocate call not understood: %s" % (fn.nloc(x), dtable.describe(x)))
@@ -618,7 +655,7 @@ def dealloc_calls(fn):
 
 def _this_call(n, nm):
     n = strip_casts(n)
-    return bool(n is not None and "callee" in n and n["callee"]["name"] == nm and n.get("member_call") and kids(n) and strip_casts(kids(n)[0])["k"] == "This")
+    return bool(n is not None and "callee" in n and n["callee"]["name"] == nm and n.get("member_call") and kids(n) and self_obj(kids(n)[0]) is not None)
 
 
 def empty_test(cond):
@@ -670,7 +707,7 @@ def check_clear_before_free(ck, fn):
     pushes = this_calls(fn, ("push_back", "push_front", "emplace_back", "emplace_front"))
 
     def effect(n):
-        if "callee" in n and n.get("member_call") and kids(n) and strip_casts(kids(n)[0])["k"] == "This":
+        if "callee" in n and n.get("member_call") and kids(n) and self_obj(kids(n)[0]) is not None:
             if n["callee"]["name"] == "clear":
                 return "gen"
             if n["callee"]["name"] in ("push_back", "push_front", "emplace_back", "emplace_front", "load", "allocate") or \
@@ -758,26 +795,67 @@ READ_ONLY_CALLS = ("deallocate", "allocate", "min", "max", "round_up_to_power_of
                    "size", "empty", "max_size", "capacity", "front", "back", "operator[]", "at", "data", "begin", "end", "cbegin", "cend")
 
 
+def _bare_record(ty):
+    """the class named by a (reference / pointer) type or a qualified record name, without template arguments and cv"""
+    t = (ty or "").split("<")[0].replace("const ", "").replace("&", "").replace("*", "").strip()
+    return t.split("::")[-1]
+
+
+def branch_free(fn2):
+    """the body is a straight line: every statement runs whenever the function is called"""
+    return fn2 is not None and fn2.body is not None and not any(
+        y["k"] in ("IfStmt", "ForStmt", "WhileStmt", "DoStmt", "SwitchStmt", "ConditionalOperator", "CXXForRangeStmt", "GotoStmt", "CXXTryStmt", "LambdaExpr",
+                   "BinaryConditionalOperator") or (y["k"] == "BinaryOperator" and y.get("op") in ("&&", "||")) for y in fn2.nodes() if not is_assert_stmt(y))
+
+
 class FieldOps:
     """what a function does to the fields of *this ("this") and of named objects (declaration id):
-    .seq      ordered (who, field, value expression) of the assignments, constructor initialisers and std::exchange calls
+    .seq      ordered (who, field, value expression) of the assignments, constructor initialisers and std::exchange calls;
+              ("swap", (target a, target b), (expression a, expression b)) for std::swap of two fields;
+              std::tie(f, g) = p writes f and g (component i of p, a TupleGet node if p is not a written-out pair)
     .w        {(who, field): [value expressions]}
     .unknown  {(who, field)} touched by an operation of no known kind (compound assignment, passed to a call that may write it)
-    .whole    {who} objects handed as a whole to a call that may change them (swap(rb), helper(rb), *this = ...)"""
+    .whole    {who} objects handed as a whole to a call that may change them (swap(rb), helper(rb), *this = ...)
+    A straight-line member of the same class that is handed another object (swap(v), the constructor of a local:
+    T tmp(std::move(v))) is followed: its operations appear in .seq with its parameters bound to the caller's objects."""
 
-    def __init__(self, fn):
+    def __init__(self, fn, me="this", depth=0):
         self.fn = fn
+        self.me = me
+        self.depth = depth
         self.seq, self.unknown, self.whole = [], set(), set()
         self.field_alias, self.obj_alias = {}, {}      # reference locals: T& f = obj.field;  /  Obj& o = obj;
+        handled = set()                                # nodes whose effect was recorded by an enclosing node
+        keeps = None
+        for x in fn.nodes():
+            if x["k"] == "VarDecl" and x.get("did") is not None and kids(x) and kids(x)[0] is not None and (x.get("ty") or "").rstrip().endswith("*"):
+                # Obj* p = &obj; that keeps this value and is only used as p->field / *p: another name of obj
+                a0 = unwrap(kids(x)[0])
+                keeps = local_defs(fn) if keeps is None else keeps
+                if a0 is not None and a0["k"] == "UnaryOperator" and a0.get("op") == "&" and kids(a0) and ref_of(kids(a0)[0]) is not None and x["did"] in keeps:
+                    uses_ok = True
+                    for y in fn.nodes():
+                        if y["k"] == "DeclRefExpr" and y["ref"]["id"] == x["did"]:
+                            par = fn.parent(y)
+                            while par is not None and par["k"] in ("ImplicitCastExpr", "ParenExpr"):
+                                par = fn.parent(par)
+                            if not (par is not None and ((par["k"] == "MemberExpr" and par.get("arrow")) or (par["k"] == "UnaryOperator" and par.get("op") == "*"))):
+                                uses_ok = False
+                    if uses_ok:
+                        d0 = ref_of(kids(a0)[0])
+                        self.obj_alias[x["did"]] = self.obj_alias.get(d0, d0)
+                        handled.add(a0["id"])
         for x in fn.nodes():
             if x["k"] == "VarDecl" and x.get("did") is not None and kids(x) and kids(x)[0] is not None and (x.get("ty") or "").rstrip().endswith("&"):
                 t = self.target(kids(x)[0])
                 if t:
                     self.field_alias[x["did"]] = t
+                elif self_obj(kids(x)[0]) is not None:
+                    self.obj_alias[x["did"]] = self.me
                 elif ref_of(unwrap(kids(x)[0])) is not None:
                     d0 = ref_of(unwrap(kids(x)[0]))
                     self.obj_alias[x["did"]] = self.obj_alias.get(d0, d0)
-            if x["k"] == "UnaryOperator" and x.get("op") == "&" and kids(x) and ref_of(kids(x)[0]) is not None:
+            if x["k"] == "UnaryOperator" and x.get("op") == "&" and kids(x) and ref_of(kids(x)[0]) is not None and x["id"] not in handled:
                 par = fn.parent(x)
                 while par is not None and par["k"] in ("ImplicitCastExpr", "ParenExpr"):
                     par = fn.parent(par)
@@ -785,24 +863,46 @@ class FieldOps:
                     self.whole.add(ref_of(kids(x)[0]))       # the object's address escapes
         for i in fn.inits:
             if i.get("field") and i.get("e") is not None:
-                self.seq.append(("this", i["field"], i["e"]))
+                self.seq.append((self.me, i["field"], i["e"]))
             elif i.get("e") is not None and not i.get("field"):
-                self.whole.add("this")                 # delegating / base initialiser
+                self.whole.add(self.me)                # delegating / base initialiser
         for x in fn.nodes():
+            if x["id"] in handled:
+                continue
             if x["k"] == "VarDecl" and x.get("did") is not None and kids(x) and kids(x)[0] is not None:
                 if x["did"] not in self.field_alias and x["did"] not in self.obj_alias:
+                    c = kids(x)[0]
+                    while c is not None and c["k"] in ("ExprWithCleanups", "MaterializeTemporaryExpr", "CXXBindTemporaryExpr") and kids(c):
+                        c = kids(c)[0]
+                    if c is not None and c["k"] == "CXXConstructExpr" and self.follow(c, kids(c), x["did"]):
+                        handled.add(c["id"])               # T tmp(std::move(v)): the constructor's effects on v and tmp are in .seq
+                        continue
                     self.seq.append(("local", x["did"], kids(x)[0]))
                 continue
             b = match.binop(x, ("=",))
             if b:
                 t = self.target(b[1])
+                tie = match.call_named(unwrap(b[1]), ("tie",)) if t is None else None
                 if t:
                     rhs = b[2]
                     while match.binop(rhs, ("=",)):       # chained assignment: value is that of the innermost rhs
                         rhs = match.binop(rhs, ("=",))[2]
                     self.seq.append((t[0], t[1], rhs))
-                elif strip_casts(b[1])["k"] == "UnaryOperator" and strip_casts(b[1]).get("op") == "*" and strip_casts(kids(strip_casts(b[1]))[0])["k"] == "This":
-                    self.whole.add("this")             # *this = ...
+                elif tie is not None and tie["k"] == "CallExpr":
+                    # std::tie(f, g) = p: component i of p goes to the i-th reference
+                    rhs = unwrap(b[2])
+                    parts = None
+                    if rhs is not None and ((rhs["k"] in ("CallExpr", "CXXConstructExpr", "CXXTemporaryObjectExpr") and rhs["callee"]["name"] in ("make_pair", "make_tuple", "pair", "tuple"))
+                                            or rhs["k"] == "InitListExpr") and len(kids(rhs)) == len(kids(tie)):
+                        parts = kids(rhs)
+                    for j, a_ in enumerate(kids(tie)):
+                        tj = self.target(a_)
+                        if tj:
+                            self.seq.append((tj[0], tj[1], parts[j] if parts else
+                                             {"k": "TupleGet", "idx": j, "id": -(x["id"] * 8 + j + 8), "ch": [b[2]], "l": x.get("l"), "f": x.get("f")}))
+                    handled.add(tie["id"])
+                elif self_obj(b[1]) is not None and strip_casts(b[1])["k"] != "This":
+                    self.whole.add(self.me)            # *this = ...
                 continue
             w = match.unop(x, ("++", "--")) or (match.binop(x, ASSIGN_OPS[1:]) if x["k"] in ("CompoundAssignOperator", "CXXOperatorCallExpr") else None)
             if w:
@@ -821,9 +921,8 @@ class FieldOps:
                         elif ref_of(unwrap(raw)) is not None:
                             d0 = ref_of(unwrap(raw))
                             self.whole.add(self.obj_alias.get(d0, d0))
-                        elif unwrap(raw) is not None and unwrap(raw)["k"] == "UnaryOperator" and unwrap(raw).get("op") == "*" and \
-                                strip_casts(kids(unwrap(raw))[0])["k"] == "This":
-                            self.whole.add("this")
+                        elif self_obj(unwrap(raw)) is not None:
+                            self.whole.add(self.me)
                 continue
             if "callee" not in x or x["k"] not in ("CallExpr", "CXXMemberCallExpr", "CXXOperatorCallExpr"):
                 continue
@@ -836,9 +935,18 @@ class FieldOps:
                 if t:
                     self.seq.append((t[0], t[1], args[1]))
                     continue
+            if nm in ("swap", "iter_swap") and len(args) == 2 and not x.get("member_call"):
+                ta, tb = self.target(args[0]), self.target(args[1])
+                if ta and tb:
+                    self.seq.append(("swap", (ta, tb), (args[0], args[1])))
+                    continue
             if x["k"] == "CXXOperatorCallExpr" and x.get("op") in ("==", "!=", "<", ">", "<=", ">=", "[]", "*", "->"):
                 continue
             cal = fn.tu.by_did.get(x["callee"].get("did")) if getattr(fn, "tu", None) is not None else None
+            if x["k"] == "CXXMemberCallExpr" and args and len(args) > 1:
+                who = self.me if self_obj(args[0]) is not None else self.obj_alias.get(ref_of(unwrap(args[0])), ref_of(unwrap(args[0])))
+                if who is not None and self.follow(x, args[1:], who):
+                    continue                           # swap(v) and the like: the member's effects are in .seq
             for j, a in enumerate(args):
                 if a is None:
                     continue
@@ -848,7 +956,7 @@ class FieldOps:
                         continue
                     t = self.target(a)
                     if t:
-                        if not (t == ("this", "alloc_")):
+                        if not (t == (self.me, "alloc_")):
                             self.unknown.add(t)
                     elif ref_of(unwrap(a)) is not None:
                         self.whole.add(self.obj_alias.get(ref_of(unwrap(a)), ref_of(unwrap(a))))
@@ -874,12 +982,62 @@ class FieldOps:
                         continue
                     a0 = unwrap(kids(a0)[0])
                 if a0 is not None and a0["k"] == "This":
-                    self.whole.add("this")
+                    self.whole.add(self.me)
                 elif ref_of(a0) is not None:
                     self.whole.add(self.obj_alias.get(ref_of(a0), ref_of(a0)))
         self.w = {}
         for who, f, v in self.seq:
-            self.w.setdefault((who, f), []).append(v)
+            if who == "swap":
+                self.w.setdefault(f[0], []).append(v[1])
+                self.w.setdefault(f[1], []).append(v[0])
+            else:
+                self.w.setdefault((who, f), []).append(v)
+
+    def follow(self, call, actual, who):
+        """a straight-line member / constructor of the class of fn, called on `who` with other objects of the class as
+        arguments: its operations are appended to .seq, its object parameters named after the caller's objects.
+        -> False if the call is not of that kind (the caller then treats it as an operation of unknown kind)"""
+        fn = self.fn
+        cal = fn.tu.by_did.get(call["callee"].get("did")) if getattr(fn, "tu", None) is not None else None
+        actual = [a for a in actual if a is not None and a["k"] != "DefaultArg"]
+        if cal is None or cal.body is None or self.depth >= 2 or cal.did == fn.did or cal.record != fn.record or cal.kind in ("dtor", "lambda") \
+                or len(actual) != len(cal.params) or not actual or not branch_free(cal):
+            return False
+        binds, objs = {}, 0
+        for p_, a in zip(cal.params, actual):
+            ty = (p_.get("ty") or "").rstrip()
+            if ty.endswith("&") or ty.endswith("*"):
+                a0 = unwrap(a)
+                if a0 is not None and a0["k"] == "UnaryOperator" and a0.get("op") == "&" and ty.endswith("*") and kids(a0):
+                    a0 = unwrap(kids(a0)[0])
+                if self_obj(a0) is not None and (a0["k"] != "This" or ty.endswith("*")):
+                    binds[p_["did"]] = self.me
+                elif ref_of(a0) is not None and _bare_record(ty) == _bare_record(fn.record):
+                    binds[p_["did"]] = self.obj_alias.get(ref_of(a0), ref_of(a0))
+                else:
+                    return False
+                objs += 1
+            else:
+                return False
+        if not objs or any(q_["did"] in self.obj_alias for q_ in cal.params):
+            return False                               # followed once only: a second call would need a second set of names
+        sub = FieldOps(cal, me=who, depth=self.depth + 1)
+        if any(d_ in sub.whole for d_ in binds) or who in sub.whole:
+            return False
+        self.obj_alias.update(binds)
+
+        def ren(w_):
+            return binds.get(w_, w_)
+        for who_, f_, v_ in sub.seq:
+            if who_ == "swap":
+                self.seq.append(("swap", tuple((ren(t_[0]), t_[1]) for t_ in f_), v_))
+            else:
+                self.seq.append((ren(who_), f_, v_))
+        self.unknown |= {(ren(w_), f_) for w_, f_ in sub.unknown}
+        self.whole |= {ren(w_) for w_ in sub.whole}
+        self.field_alias.update({d_: (ren(t_[0]), t_[1]) for d_, t_ in sub.field_alias.items()})
+        self.obj_alias.update({d_: ren(o_) for d_, o_ in sub.obj_alias.items()})
+        return True
 
     def target(self, e):
         """(who, field) of an lvalue that is a field of *this / of a named object, through reference locals"""
@@ -896,7 +1054,7 @@ class FieldOps:
         if base is None:
             return None
         if base["k"] == "This":
-            return ("this", f[1])
+            return (self.me, f[1])
         if base["k"] == "DeclRefExpr":
             return (self.obj_alias.get(base["ref"]["id"], base["ref"]["id"]), f[1])
         return None
@@ -932,7 +1090,11 @@ class FieldOps:
             return ("?", e["id"])
         # std::exchange(a, v) used as a value reads a before it writes it: handle the pair value-then-write in walk order
         for who, f, v in self.seq:
-            env[(who, f)] = term(v)
+            if who == "swap":
+                va, vb = env.get(f[0], ("init",) + f[0]), env.get(f[1], ("init",) + f[1])
+                env[f[0]], env[f[1]] = vb, va
+            else:
+                env[(who, f)] = term(v)
         return env
 
 
@@ -978,115 +1140,262 @@ def check_moved(ck, fn):
           "takes all 6 fields; source: data_=nullptr, begin_==end_")
 
 
-def check_copy_loop(ck, fn, tu=None):
-    """COPY-ELEMENTS: the copy constructor / copy assignment is evaluated on its skeleton for a source of n = 0..3 elements
-    (both outcomes of every data-dependent branch): it must push_back(rb[0]) ... push_back(rb[n-1]) in this order, and the
-    assignment must clear() before it resets its cursors.  Closed world: an element construction by other means than
-    push_back / emplace_back, or a call of unknown kind on the source, is Undecidable."""
+SRC_BASE = 500000        # address of the source's data_[0] in the evaluation of a copy
+RB_MUTATORS = tuple(EXPECT)
+
+
+def copy_label(v):
+    if isinstance(v, tuple) and v and v[0] == "RB":
+        return "rb[%d]" % v[1]
+    if isinstance(v, tuple) and v and v[0] == "IDX":
+        return "rb[%d] (beyond rb.size())" % v[1]
+    if isinstance(v, tuple) and v and v[0] == "SLOT":
+        return "storage slot %d of rb (%s), which holds no element of that position" % (v[1], v[2])
+    if isinstance(v, tuple) and v and v[0] == "OLD":
+        return "old element %d" % v[1]
+    return "?"
+
+
+def copy_run(fn, S, T, choice):
+    """one evaluation of the copy constructor / copy assignment.  S = (mask, begin, n, data): the source holds n elements in a
+    block of mask+1 slots, the first one at cursor `begin` (so the live range wraps for begin near the capacity); T describes
+    *this the same way (its elements are the old ones), None for a constructor, whose member initialisers are evaluated.
+    The six primitive mutators act on *this by their specification (SLOT-CURSOR establishes it), the accessors of the source
+    by theirs (ACCESSOR-CONVENTION); a direct read of the source's storage is the element that lives in that slot, if any.
+    Everything else is evaluated (ring_event: closed world).
+    -> dict(verdict 'ok' | 'bad' | '?', seq, text, old, asked)"""
     rb = fn.params[0]["did"]
-    results = {}
+    m, b, n, sdata = S
+    src = {"mask_": m, "capacity_": (m + 1) if sdata else 0, "begin_": b, "end_": (b + n) & m, "max_size_": m, "data_": sdata}
+    live, notes, blocks = {}, [], {}
+    fresh, asked = [0], [0]
+    env = {}
+    for k in range(n + 3):
+        env[("elem", rb, k)] = ("RB", k) if k < n else ("IDX", k)          # rb[i] handed on by reference
+    if T is not None:
+        m0, b0, n0, d0 = T
+        env.update({("field", "mask_"): m0, ("field", "capacity_"): (m0 + 1) if d0 else 0, ("field", "begin_"): b0, ("field", "end_"): (b0 + n0) & m0,
+                    ("field", "max_size_"): m0, ("field", "data_"): d0})
+        if d0:
+            blocks[d0] = m0 + 1
+        for k in range(n0):
+            live[d0 + ((b0 + k) & m0)] = ("OLD", k)
 
-    def run_one(n, choice):
-        pushed = []
-        asked = [0]
+    def is_src(o, sk):
+        o = strip_casts(o)
+        while o is not None and o["k"] == "ParenExpr" and kids(o):
+            o = strip_casts(kids(o)[0])
+        d = ref_of(o)
+        return d is not None and sk.alias.get(d, d) == rb
 
-        def is_src(obj, sk):
-            return ref_of(obj) == rb or sk.lvalue(obj) == rb
+    def src_slot(a, e):
+        s_ = a - SRC_BASE
+        if sdata and 0 <= s_ <= m and ((s_ - b) & m) < n:
+            return ("RB", (s_ - b) & m)
+        return ("SLOT", s_, "%s; the block has %d slots" % (dtable.describe(e)[:60] if e is not None else "read through a pointer", src["capacity_"]))
 
-        def event(e, sk):
-            if is_assert_stmt(e):
+    def src_elem(i_):
+        if isinstance(i_, bool) or not isinstance(i_, int):
+            return None
+        i_ = _umod(i_, "size_t")
+        return ("RB", i_) if i_ < n else ("IDX", i_)
+
+    def value(vals, sk):
+        vals = [v for v in vals if v is not None and v["k"] != "DefaultArg"]
+        return sk.ev(vals[0]) if len(vals) == 1 else None
+
+    def make(a, v, sk, e):
+        if a in live:
+            notes.append("%s: constructs an element in a slot that still holds %s" % (sk.fn.nloc(e), copy_label(live[a])))
+        live[a] = v
+
+    def gone(a, sk, e):
+        if a not in live:
+            notes.append("%s: destroys a slot that holds no element" % sk.fn.nloc(e))
+        live.pop(a, None)
+
+    def cur(f, sk, e):
+        v = sk.env.get(("field", f))
+        if isinstance(v, bool) or not isinstance(v, int):
+            raise dtable.Undecidable("%s: %s of *this cannot be evaluated where %s is called" % (sk.fn.nloc(e), f, e["callee"]["name"]))
+        return v % M64
+
+    ring = ring_event(lambda a, vals, sk, e: make(a, value(vals, sk), sk, e), gone)
+
+    def event(e, sk):
+        if is_assert_stmt(e):
+            return None
+        k = e["k"]
+        if k == "MemberExpr" and kids(e) and is_src(kids(e)[0], sk):
+            if e.get("member") in src:
+                return src[e["member"]]
+            if e.get("member") == "alloc_":
                 return None
-            if e["k"] in ("CXXNewExpr",):
-                raise dtable.Undecidable("%s: elements are constructed by placement new: not evaluated" % sk.fn.nloc(e))
-            if "callee" in e:
-                nm = e["callee"]["name"]
-                if e.get("member_call") and kids(e):
-                    obj = strip_casts(kids(e)[0])
-                    if is_src(obj, sk):
-                        if nm == "size":
-                            return n
-                        if nm == "empty":
-                            return n == 0
-                        if nm in ("operator[]", "at") and len(kids(e)) == 2:
-                            i_ = sk.ev(kids(e)[1])
-                            return ("RB", i_) if isinstance(i_, int) and not isinstance(i_, bool) else ("RB", "?")
-                        if nm in ("max_size", "capacity"):
-                            return None
-                        if nm == "front" and len(kids(e)) == 1:
-                            return ("RB", 0) if n > 0 else ("RB", "?")
-                        if nm == "back" and len(kids(e)) == 1:
-                            return ("RB", n - 1) if n > 0 else ("RB", "?")
-                        raise dtable.Undecidable("%s: call of %s on the source of the copy is not understood" % (sk.fn.nloc(e), nm))
-                    if obj["k"] == "This":
-                        if nm in ("push_back", "emplace_back") and len(kids(e)) == 2:
-                            pushed.append(sk.ev(kids(e)[1]))
-                            return None
-                        if nm in ("clear", "allocate", "deallocate", "size", "empty", "max_size", "capacity"):
-                            return None                        # no element is copied there
-                        cal = sk.tu.by_did.get(e["callee"].get("did")) if sk.tu is not None else None
-                        if cal is not None and cal.body is not None and cal.did != sk.fn.did and sk.depth < 5 and len(kids(e)) - 1 == len(cal.params):
-                            return NotImplemented              # a helper that may hold the loop: the skeleton enters it
-                        raise dtable.Undecidable("%s: call of %s in the copy is not understood" % (sk.fn.nloc(e), nm))
-                    return NotImplemented                      # alloc_.allocate(...) and the like
-                if nm in ("construct", "construct_at", "destroy", "destroy_at") or nm.startswith("uninitialized_"):
-                    raise dtable.Undecidable("%s: elements are constructed by %s, not by push_back: not evaluated" % (sk.fn.nloc(e), nm))
-            if e["k"] == "CXXOperatorCallExpr" and e.get("op") == "[]" and len(kids(e)) == 2 and is_src(kids(e)[0], sk):
-                i_ = sk.ev(kids(e)[1])
-                return ("RB", i_) if isinstance(i_, int) and not isinstance(i_, bool) else ("RB", "?")
-            if e["k"] in ("BinaryOperator",) and e.get("op") in ("==", "!=") and any(strip_casts(x)["k"] == "This" for x in kids(e)):
-                return e["op"] == "!="                 # this != &rb
+            raise dtable.Undecidable("%s: member %s of the source of the copy is not understood" % (sk.fn.nloc(e), e.get("member")))
+        if k == "ArraySubscriptExpr" and not _has_update(e):
+            a_, i_ = sk.ev(kids(e)[0]), sk.ev(kids(e)[1])
+            if isinstance(a_, int) and isinstance(i_, int) and not isinstance(a_, bool) and not isinstance(i_, bool) and a_ >= SRC_BASE - 1000:
+                return src_slot(a_ + _umod(i_, kids(e)[1].get("ty")), e)           # rb.data_[...]: the source's storage, read directly
             return NotImplemented
-        sk = skel.Skel(fn, {}, None, event, max_iter=16)
+        if k in ("BinaryOperator", "CXXOperatorCallExpr") and e.get("op") in ("==", "!=") and len(kids(e)) == 2 and \
+                any(strip_casts(x) is not None and strip_casts(x)["k"] == "This" for x in kids(e)):
+            return e["op"] == "!="                     # this != &rb: the copy of another object is evaluated
+        if "callee" in e:
+            nm = e["callee"]["name"]
+            args = kids(e)
+            if nm in TRANSPARENT and len(args) == 1:
+                return sk.ev(args[0])
+            if k == "CXXOperatorCallExpr" and e.get("op") == "[]" and len(args) == 2 and is_src(args[0], sk):
+                return src_elem(sk.ev(args[1]))
+            if e.get("member_call") and args and is_src(args[0], sk):
+                if nm == "size":
+                    return n
+                if nm == "empty":
+                    return n == 0
+                if nm == "max_size":
+                    return src["max_size_"]
+                if nm == "capacity":
+                    return src["capacity_"]
+                if nm in ("operator[]", "at") and len(args) == 2:
+                    return src_elem(sk.ev(args[1]))
+                if nm == "front" and len(args) == 1:
+                    return src_elem(0)
+                if nm == "back" and len(args) == 1:
+                    return src_elem(n - 1) if n > 0 else ("IDX", -1)
+                raise dtable.Undecidable("%s: call of %s on the source of the copy is not understood" % (sk.fn.nloc(e), nm))
+            if nm in ("allocate", "deallocate") and args and match.this_field(args[0]) == "alloc_" and len(args) == (2 if nm == "allocate" else 3):
+                if nm == "allocate":
+                    fresh[0] += 10000
+                    blocks[fresh[0]] = sk.ev(args[1])
+                    return fresh[0]
+                blocks.pop(sk.ev(args[1]), None)
+                sk.ev(args[2])
+                return None
+            if e.get("member_call") and args and self_obj(args[0]) is not None and nm in RB_MUTATORS:
+                v = value(args[1:], sk) if nm not in ("pop_front", "pop_back") else None
+                b_, e_, m_, d_ = cur("begin_", sk, e), cur("end_", sk, e), cur("mask_", sk, e), cur("data_", sk, e)
+                if nm in ("push_back", "emplace_back"):
+                    make(d_ + e_, v, sk, e)
+                    sk.env[("field", "end_")] = (e_ + 1) & m_
+                elif nm in ("push_front", "emplace_front"):
+                    sk.env[("field", "begin_")] = (b_ - 1) & m_
+                    make(d_ + ((b_ - 1) & m_), v, sk, e)
+                elif nm == "pop_front":
+                    gone(d_ + b_, sk, e)
+                    sk.env[("field", "begin_")] = (b_ + 1) & m_
+                else:
+                    gone(d_ + ((e_ - 1) & m_), sk, e)
+                    sk.env[("field", "end_")] = (e_ - 1) & m_
+                return None
+        return ring(e, sk)
 
-        def cond(c, sk_):
-            asked[0] += 1
-            return choice
-        sk.unknown_cond = cond
-        try:
-            sk.run(kids(fn.body))
-        except skel.Return:
-            pass
-        return pushed, asked[0]
-    definite = None
-    unclear = None
-    for n in range(4):
-        want = [("RB", i) for i in range(n)]
-        outcomes = []
-        for choice in (True, False):
-            pushed, asked = run_one(n, choice)
-            if any(not (isinstance(p, tuple) and len(p) == 2 and p[0] == "RB" and isinstance(p[1], int)) for p in pushed):
-                outcomes.append("?")
-            else:
-                outcomes.append("ok" if pushed == want else "bad")
-            if outcomes[-1] != "ok" and unclear is None:
-                unclear = (n, pushed)
-            if not asked:
-                outcomes.append(outcomes[-1])
-                break
-        if all(o == "bad" for o in outcomes) and definite is None:
-            definite = (n, run_one(n, True)[0])
+    def mem(a):
+        return src_slot(a, None) if a >= SRC_BASE - 1000 else live.get(a)
+    sk = skel.Skel(fn, env, None, event, mem_default=mem, max_iter=16)
+
+    def cond(c, sk_):
+        asked[0] += 1
+        return choice
+    sk.unknown_cond = cond
+    try:
+        if fn.kind == "ctor":
+            for i in fn.inits:
+                x = i.get("e")
+                if not i.get("field"):
+                    if x is not None:
+                        raise dtable.Undecidable("%s: the copy constructor delegates to another constructor: not evaluated" % fn.loc)
+                    continue
+                if x is not None and x["k"] == "CXXDefaultInitExpr":
+                    x = kids(x)[0] if kids(x) else None
+                sk.env[("field", i["field"])] = sk.ev(x) if x is not None else None
+        sk.run(kids(fn.body))
+    except skel.Return:
+        pass
+    except skel.Diverges as d_:
+        raise dtable.Undecidable("%s: loop of the copy does not end for a source of %d elements" % (fn.nloc(d_.loop), n))
+    f = {k: sk.env.get(("field", k)) for k in ("begin_", "end_", "mask_", "data_")}
+    res = dict(asked=asked[0], seq=[], text="", old=False, verdict="?")
+    if any(isinstance(v, bool) or not isinstance(v, int) for v in f.values()):
+        res["text"] = "begin_/end_/mask_/data_ of the copy cannot be evaluated"
+        return res
+    nb, ne, nm_, nd = (f[k] % M64 for k in ("begin_", "end_", "mask_", "data_"))
+    size = (ne - nb) & nm_
+    if size > 64:
+        res["text"] = "size of the copy cannot be evaluated"
+        return res
+    slots = [nd + ((nb + k) & nm_) for k in range(size)]
+    seq = [live.get(a_) for a_ in slots]
+    stray = sorted((a_, v) for a_, v in live.items() if a_ not in slots)
+    res["seq"] = seq
+    res["old"] = any(isinstance(v, tuple) and v and v[0] == "OLD" for v in list(live.values()))
+    labelled = all(isinstance(v, tuple) and v and v[0] in ("RB", "IDX", "SLOT", "OLD") for v in list(live.values())) and \
+        all(a_ in live for a_ in slots)
+    outside = [a_ for a_ in slots if not any(isinstance(c_, int) and b0_ <= a_ < b0_ + c_ for b0_, c_ in blocks.items())]
+    if any(not isinstance(c_, int) or isinstance(c_, bool) for c_ in blocks.values()):
+        res["text"] = "size of an allocated block cannot be evaluated"
+        return res
+    if seq == [("RB", i) for i in range(n)] and not stray and not notes and not outside:
+        res["verdict"] = "ok"
+        return res
+    if not labelled and not res["old"] and not notes:
+        res["text"] = "the value of an element of the copy cannot be evaluated"
+        return res
+    res["verdict"] = "bad"
+    parts = []
+    if seq != [("RB", i) for i in range(n)]:
+        parts.append("the copy holds [%s]" % ", ".join(copy_label(v) if v is not None else "a slot that was never constructed" for v in seq))
+    if stray:
+        parts.append("outside its live range [begin_=%d, end_=%d) it keeps constructed: %s" % (nb, ne, ", ".join(copy_label(v) for _, v in stray)))
+    if outside:
+        parts.append("its live range covers %d slot(s) outside the allocated block" % len(outside))
+    parts.extend(notes[:2])
+    res["text"] = "; ".join(parts)
+    return res
+
+
+def check_copy_loop(ck, fn, tu=None):
+    """COPY-ELEMENTS: the copy constructor / copy assignment is evaluated for sources of 0..3 elements at every cursor
+    position of small blocks (so also for live ranges that wrap around the end of the block), the assignment on targets that
+    hold old elements in a block of the same and of another capacity, with both outcomes of every branch on data: afterwards
+    the live range of *this must hold rb[0] ... rb[n-1] in this order, nothing else may be left constructed (the old elements
+    are destroyed), and the live range lies in the allocated block."""
+    sources = [(0, 0, 0, 0)]                              # a buffer without storage
+    for m in (1, 3, 7):
+        for b in range(m + 1):
+            for n in range(min(m, 3) + 1):
+                sources.append((m, b, n, SRC_BASE))
+    targets = [None] if fn.kind == "ctor" else [(0, 0, 0, 0), (3, 3, 2, BASE), (7, 6, 3, BASE)]
+    definite = unclear = None
+    for S in sources:
+        for T in targets:
+            outs = []
+            for choice in (True, False):
+                r = copy_run(fn, S, T, choice)
+                outs.append(r)
+                if not r["asked"]:
+                    break
+            if all(r["verdict"] == "bad" for r in outs) and definite is None:
+                definite = (S, T, outs[0])
+            for r in outs:
+                if r["verdict"] != "ok" and unclear is None:
+                    unclear = (S, T, r)
     if definite:
-        n, pushed = definite
-        ck.violation("COPY-ELEMENTS", fn.qname, "loop", "copy does not push_back(rb[i]) for every i in [0, rb.size()): a source of %d elements yields %s"
-                     % (n, [("rb[%s]" % p[1]) if isinstance(p, tuple) and p and p[0] == "RB" else "?" for p in pushed]), fn.loc)
+        S, T, r = definite
+        state = "a source of %d elements (begin_=%d end_=%d mask_=%d)" % (S[2], S[1], (S[1] + S[2]) & S[0], S[0])
+        if T is not None:
+            state += " assigned to a buffer of %d elements (begin_=%d mask_=%d)" % (T[2], T[1], T[0])
+        if r["old"]:
+            ck.violation("COPY-ELEMENTS", fn.qname, "reset-before-clear", "old elements are not destroyed before the cursors are reset / the block is replaced: for %s %s"
+                         % (state, r["text"]), fn.loc)
+        else:
+            ck.violation("COPY-ELEMENTS", fn.qname, "loop", "copy does not reproduce rb[i] for every i in [0, rb.size()): for %s %s" % (state, r["text"]), fn.loc)
         return
     if unclear:
-        raise dtable.Undecidable("%s: what the copy appends for a source of %d elements depends on a branch or a value that is not understood" % (fn.loc, unclear[0]))
-    if fn.kind != "ctor":
-        g = cfgm.CFG(fn)
-        w = [x for x in ir.walk(fn.body) if match.binop(x, ("=",)) and match.this_field(match.binop(x, ("=",))[1]) in ("begin_", "end_")]
-        cl = [c for c in this_calls(fn, ("clear",)) + [cond for _, cond in drain_loops(fn)] if P(g, c)]
-        if not cl:
-            raise dtable.Undecidable("%s: clear() of the old contents not found" % fn.loc)
-        for x in w:
-            px = P(g, x)
-            if px is None or any(g.dominates(P(g, c), px) for c in cl):
-                continue
-            if any(g.reachable(P(g, c), px) for c in cl):
-                raise dtable.Undecidable("%s: clear() lies on some but not on all paths to the cursor reset" % fn.nloc(x))
-            ck.violation("COPY-ELEMENTS", fn.qname, "reset-before-clear", "cursors are reset before the old elements were destroyed", fn.loc)
-            return
-    ck.ok("COPY-ELEMENTS", fn.qname + ("(copy-ctor)" if fn.kind == "ctor" else "(copy-assign)"), "push_back(rb[i]) for i in [0, rb.size()), sources of 0..3 elements")
+        S, T, r = unclear
+        raise dtable.Undecidable("%s: what the copy holds for a source of %d elements (begin_=%d mask_=%d) depends on a branch or a value that is not understood%s"
+                                 % (fn.loc, S[2], S[1], S[0], (": " + r["text"]) if r["text"] else ""))
+    ck.ok("COPY-ELEMENTS", fn.qname + ("(copy-ctor)" if fn.kind == "ctor" else "(copy-assign)"),
+          "live range holds rb[0..n) in order, old elements destroyed: sources of 0..3 elements at every cursor position of blocks with 2, 4, 8 slots")
 
 
 RB_NO_RESET = tuple(EXPECT) + RB_OBSERVERS + ("clear", "deallocate")      # members of *this that do not re-establish cursors for a new capacity
@@ -1126,6 +1435,47 @@ def check_cursor_reset(ck, fn):
         ck.ok("CURSOR-RESET", "%s(%s)" % (fn.qname, ",".join(p["ty"] for p in fn.params)), "new mask_ comes with begin_/end_ re-established")
 
 
+def sv_block_cex(fn):
+    """evaluates a SimpleVector member on its skeleton for every old size and every integer argument in 0..3 (with a block of
+    that size in array_, and without a block for size 0): afterwards size_ must be the number of elements of the block in
+    array_ (0 for nullptr).  -> None if that holds everywhere, else (old size_, ((parameter, value), ...), size_, elements of
+    the block); Undecidable if a value cannot be evaluated"""
+    import itertools
+    ints = [p_ for p_ in fn.params if not (p_.get("ty") or "").rstrip().endswith(("&", "*")) and any(t_ in (p_.get("ty") or "") for t_ in ("long", "int", "size_t", "short"))]
+    if len(ints) != len(fn.params) or len(ints) > 2:
+        raise dtable.Undecidable("%s: parameters of %s are not evaluated" % (fn.loc, fn.name))
+    for s0, a0 in [(0, 0)] + [(k_, BASE) for k_ in range(4)]:
+        for vals in itertools.product(range(4), repeat=len(ints)):
+            blocks = {BASE: s0} if a0 else {}
+            fresh = [5000]
+
+            def event(e, sk):
+                c_ = match.call_named(e, ("create_array",))
+                if c_ is not None and e is strip_casts(e) and kids(c_):
+                    fresh[0] += 1000
+                    blocks[fresh[0]] = sk.ev(kids(c_)[-1])
+                    return fresh[0]
+                if e["k"] in ("NullPtr", "CXXNullPtrLiteralExpr", "GNUNullExpr"):
+                    return 0
+                return NotImplemented
+            env = {("field", "array_"): a0, ("field", "size_"): s0}
+            env.update({p_["did"]: v_ for p_, v_ in zip(ints, vals)})
+            sk = skel.Skel(fn, env, None, event, max_iter=16)
+            try:
+                sk.run(kids(fn.body))
+            except skel.Return:
+                pass
+            except skel.Diverges as d_:
+                raise dtable.Undecidable("%s: loop does not end in the evaluation" % fn.nloc(d_.loop))
+            a_, z_ = sk.env.get(("field", "array_")), sk.env.get(("field", "size_"))
+            have = 0 if a_ == 0 else blocks.get(a_) if isinstance(a_, int) and not isinstance(a_, bool) else None
+            if isinstance(z_, bool) or not isinstance(z_, int) or isinstance(have, bool) or not isinstance(have, int):
+                raise dtable.Undecidable("%s: size_ / the block left in array_ cannot be evaluated" % fn.loc)
+            if z_ % M64 != have % M64:
+                return (s0, tuple((p_["name"], v_) for p_, v_ in zip(ints, vals)), z_ % M64, have % M64)
+    return None
+
+
 def check_sv_coupled(ck, fn):
     """size_ and array_ describe one block: every write to one is accompanied on the same paths by a write of the other,
     with agreeing values (create_array(X) <-> X, nullptr <-> 0, both from the same source object)"""
@@ -1154,6 +1504,17 @@ def check_sv_coupled(ck, fn):
             if fa and fb and fa[1] == fb[1] and fa[1] in writes:
                 writes[fa[1]].append((x, "swap", None))
     if not writes["size_"] and not writes["array_"]:
+        def changes(c):
+            cal = fn.tu.by_did.get(c["callee"].get("did"))
+            if c["callee"].get("const") or cal is None or cal.body is None or cal.record != fn.record or cal.kind != "method":
+                return False
+            sub = FieldOps(cal)
+            return any(k_[1] in ("size_", "array_") for k_ in list(sub.w) + list(sub.unknown) if isinstance(k_, tuple) and len(k_) == 2)
+        via = [c for c in ir.walk(fn.body) if "callee" in c and c.get("member_call") and any(self_obj(a_) is not None for a_ in kids(c)) and changes(c)]
+        if via and not ops.unknown & {("this", "size_"), ("this", "array_")}:
+            # no write of its own: size_/array_ change only inside other members, each of which is judged here on its own
+            ck.ok("SV-COUPLED", "%s %s/%d" % (fn.qname, fn.kind, len(fn.params)), "size_/array_ are changed only through %s"
+                  % ", ".join(sorted({c["callee"]["name"] for c in via})))
         return
     okall = True
     for a, b in (("size_", "array_"), ("array_", "size_")):
@@ -1194,6 +1555,20 @@ def check_sv_coupled(ck, fn):
                     if match.this_field(arg) == "size_" and P(g, y) and g.dominates(px, P(g, y)) and \
                             not any(z is not x and w_ == who and P(g, z) and g.reachable(px, P(g, z)) and g.reachable(P(g, z), P(g, y)) for (z, w_, _) in writes["size_"]):
                         continue                       # the block is created with the size_ just stored
+                    # not the same expression: evaluate the function for old sizes / integer arguments 0..3 and compare the size_
+                    # it leaves with the number of elements of the block it leaves in array_
+                    try:
+                        cex = sv_block_cex(fn)
+                    except dtable.Undecidable:
+                        cex = False
+                    if cex is None:
+                        continue
+                    if cex:
+                        ck.violation("SV-COUPLED", fn.qname, "size-vs-create", "size_ = %s but the block is created with %s elements: for size_=%d%s the function "
+                                     "leaves size_=%d with a block of %d elements" % (dtable.describe(rhs), dtable.describe(kids(ca)[-1]), cex[0],
+                                                                                     "".join(" %s=%d" % kv for kv in cex[1]), cex[2], cex[3]), fn.nloc(x))
+                        okall = False
+                        continue
 
                     # both linear in one by-value parameter that is never written (or constant): they differ for some call unless a
                     # branch condition on the way relates them
@@ -1712,44 +2087,92 @@ def linear_in_one(e):
     return None
 
 
+def round_up_pow2(v):
+    """tlx::round_up_to_power_of_two on size_t (its own property is C20's): the smallest power of two >= v; 0 for 0"""
+    v %= M64
+    return 0 if v == 0 else (1 << (v - 1).bit_length()) % M64
+
+
+def pair_event(e, sk):
+    """values that travel as a pair: std::make_pair / pair{a, b} / std::tie-style component selection (.first, .second,
+    std::get<I>, the TupleGet nodes FieldOps makes for std::tie(a, b) = p), and round_up_to_power_of_two by its specification"""
+    k = e["k"]
+    if k == "TupleGet" or (k == "MemberExpr" and e.get("member") in ("first", "second") and kids(e) and match.this_field(e) is None):
+        v = sk.ev(kids(e)[0])
+        i_ = e["idx"] if k == "TupleGet" else (0 if e["member"] == "first" else 1)
+        return v[1 + i_] if isinstance(v, tuple) and v and v[0] == "pair" and len(v) > 1 + i_ else None
+    if k == "InitListExpr" and len(kids(e)) >= 2:
+        return ("pair",) + tuple(sk.ev(x) for x in kids(e))
+    if "callee" in e:
+        nm = e["callee"]["name"]
+        args = [a for a in kids(e) if a is not None and a["k"] != "DefaultArg"]
+        if nm == "round_up_to_power_of_two" and len(args) == 1:
+            v = sk.ev(args[0])
+            return round_up_pow2(v) if isinstance(v, int) and not isinstance(v, bool) else None
+        if nm in ("make_pair", "make_tuple", "pair", "tuple", "forward_as_tuple") and len(args) >= 2 and k in ("CallExpr", "CXXConstructExpr", "CXXTemporaryObjectExpr"):
+            return ("pair",) + tuple(sk.ev(x) for x in args)
+        if nm in TRANSPARENT and len(args) == 1:
+            return sk.ev(args[0])
+    return NotImplemented
+
+
+CAP_GRID = (0, 1, 2, 3, 4, 5, 7, 8, 9, 15, 16, 17, 1000)
+
+
 def check_capacity(ck, fn):
     """wherever the ring's capacity is computed it must exceed the promised max_size by at least one slot: begin_ == end_ means
-    empty, so a ring with capacity == max_size looks empty when it is full"""
-    sites = []
-    for i in fn.inits:
-        if i.get("field") == "capacity_" or i.get("name") == "capacity_" or i.get("init") == "capacity_":
-            if i.get("e") is not None:
-                sites.append(i["e"])
-    for x in fn.nodes():
-        b = match.binop(x, ("=",)) if x["k"] == "BinaryOperator" else None
-        if b and match.this_field(b[1]) == "capacity_":
-            sites.append(b[2])
-    ops = None
+    empty, so a ring with capacity == max_size looks empty when it is full.  Every value a function gives to capacity_ that is
+    not taken from another ring and not a constant is evaluated for maximum sizes 0..17 and 1000 (the integer parameters and
+    max_size_ on entry) together with the value the function leaves in max_size_."""
+    ops = FieldOps(fn)
+    defs = local_defs(fn)
     n = 0
-    for e in sites:
-        calls = [z for z in ir.walk(e) if "callee" in z and z["callee"]["name"] == "round_up_to_power_of_two"]
-        if not calls:
-            continue          # copied from another ring / zero
+    tag = "%s::%s" % (fn.record.split("::")[-1], fn.name)
+    maxw = ops.w.get(("this", "max_size_"), [])
+    for e in ops.w.get(("this", "capacity_"), []):
+        u = unwrap(e)
+        if u is None:
+            continue
+        t = ops.target(u)
+        if (t and t[0] != "this" and t[1] == "capacity_") or const_int(u) is not None or is_null(u):
+            continue          # taken from another ring / zero
+        ex = match.call_named(u, ("exchange",))
+        if ex is not None and len(kids(ex)) == 2 and ops.target(kids(ex)[0]) and ops.target(kids(ex)[0])[0] != "this" and ops.target(kids(ex)[0])[1] == "capacity_":
+            continue          # std::exchange(rb.capacity_, ...): taken from another ring
+        if u["k"] in ("InitListExpr", "CXXScalarValueInitExpr", "ImplicitValueInitExpr") and not kids(u):
+            continue
         n += 1
-        arg = strip_casts(kids(calls[0])[0])
-        lin = linear_in_one(arg)
-        tag = "%s::%s" % (fn.record.split("::")[-1], fn.name)
-        if lin is None or lin[0] is None:
-            raise dtable.Undecidable("%s: capacity is not computed from the maximum size: %s" % (fn.nloc(calls[0]), dtable.describe(arg)))
-        base, extra = lin
-        # the maximum size: the member max_size_, or the parameter this function stores into max_size_ (whatever it is called)
-        is_max = match.this_field(base) == "max_size_"
-        if not is_max and ref_of(base) is not None and fn.param_index(ref_of(base)) is not None:
-            ops = ops or FieldOps(fn)
-            is_max = any(ref_of(unwrap(v)) == ref_of(base) for v in ops.w.get(("this", "max_size_"), []))
-        if not is_max:
-            raise dtable.Undecidable("%s: capacity is not computed from the maximum size: %s" % (fn.nloc(calls[0]), dtable.describe(arg)))
-        if extra < 1:
-            ck.violation("CAPACITY-SPARE-SLOT", fn.qname, "%s:%s" % (fn.name, dtable.describe(arg)),
-                         "the capacity is round_up_to_power_of_two(%s): for a max_size that is a power of two the ring has exactly max_size slots, a full ring "
-                         "has end_ == begin_ and reports size() == 0 (elements are then leaked and overwritten)" % dtable.describe(arg), fn.nloc(calls[0]))
+        cex = None
+        for k_ in CAP_GRID:
+            env = {("field", "max_size_"): k_}
+            for p_ in fn.params:
+                ty = (p_.get("ty") or "").rstrip()
+                if not ty.endswith("&") and not ty.endswith("*") and ("long" in ty or "int" in ty or "size_t" in ty or "short" in ty):
+                    env[p_["did"]] = k_
+
+            def unknown(x, sk):
+                d = ref_of(x)
+                if x["k"] == "DeclRefExpr" and d in defs and d not in sk.env:
+                    sk.env[d] = sk.ev(kids(defs[d])[0])       # a local that keeps the value it got at its declaration
+                    return sk.env[d]
+                return None
+            sk = skel.Skel(fn, env, unknown, pair_event, max_iter=16)
+            try:
+                cap = sk.ev(e)
+                mx = sk.ev(maxw[-1]) if maxw else k_
+            except skel.Return:
+                cap = mx = None
+            if isinstance(cap, bool) or not isinstance(cap, int) or isinstance(mx, bool) or not isinstance(mx, int):
+                raise dtable.Undecidable("%s: capacity is not computed from the maximum size in a way that can be evaluated: %s" % (fn.nloc(u), dtable.describe(e)))
+            cap, mx = cap % M64, mx % M64
+            if cap <= mx and cex is None:
+                cex = (mx, cap)
+        if cex:
+            ck.violation("CAPACITY-SPARE-SLOT", fn.qname, "%s:%s" % (fn.name, dtable.describe(e)),
+                         "the capacity is %s: for max_size %d the ring has %d slots; a ring with capacity <= max_size has end_ == begin_ when it is "
+                         "full and reports size() == 0 (elements are then leaked and overwritten)" % (dtable.describe(e), cex[0], cex[1]), fn.nloc(u))
         else:
-            ck.ok("CAPACITY-SPARE-SLOT", "%s [%s]" % (tag, dtable.describe(arg)), "capacity > max_size")
+            ck.ok("CAPACITY-SPARE-SLOT", "%s [%s]" % (tag, dtable.describe(e)), "capacity > max_size for max_size 0..17, 1000")
     return n
 
 
@@ -1759,7 +2182,10 @@ def run(ck):
         "with slot indices evaluated symbolically as begin_/end_ + offset relative to the pre-state; the slot constructed or "
         "destroyed must be exactly the slot that enters or leaves the live range [begin_, end_), and the accessors must index "
         "the same convention (all wrapped by the mask). Storage release must be dominated by clear(); moves must take all fields "
-        "and leave the source empty and non-owning; copies must push_back every source element. SimpleVector: the instantiated "
+        "and leave the source empty and non-owning (std::swap of fields, std::tie and straight-line members handed the other object "
+        "are followed); a copy is evaluated for sources of 0..3 elements at every cursor position of small blocks (wrapped live "
+        "ranges included) and must leave rb[0..n) in its live range with the old elements destroyed; the capacity a function "
+        "computes is evaluated against the max_size it stores. SimpleVector: the instantiated "
         "switch(Mode) tables of create_array/destroy_array must pair, array_ must never be overwritten while owning, resize must "
         "destroy the old block with the old size. Histories (deque equivalence) are not decided. A member that is not written in "
         "the usual statement shapes is evaluated instead (every cursor position of buffers with mask 1..15, old/new sizes 0..3, "
